@@ -279,6 +279,17 @@ def run_titles(cases, stats):
             if bad:
                 report(vio, i, bad[0], bad[1], {'shape': 'title', 'chars': sorted(set(t)), 'layout': layout, 'title': t})
                 break
+        else:
+            # the same title on a workbook the enabled safety check refuses: the refusal is the library's exception,
+            # whatever the title and the offending text look like (both end up in its message)
+            for frag in ('eval(1)', 'print({})', 'f("%s" % x)'):
+                kind, text = D.translate(build([(t, {'A1': 5, 'B2': frag})]), safety=True, budget=budget())
+                stats['transitions'] += 1
+                stats['out:' + kind] += 1
+                if kind != 'LIB_EXC:safety':
+                    report(vio, i, 'safety-refusal', [kind, str(text)[:200]], {'shape': 'title', 'chars': sorted(set(t)), 'layout': 'unsafe',
+                                                                               'title': t})
+                    break
     return vio
 
 
